@@ -192,8 +192,16 @@ func (r *Reader) ReadFrame(data []byte) (pgno, commit uint32, err error) {
 			return 0, 0, io.EOF
 		}
 	} else {
-		// Skip WAL page data.
-		if _, err := r.r.Seek(int64(r.pageSize), io.SeekCurrent); err != nil {
+		// Skip WAL page data. The final byte of the page is read, rather than
+		// seeked past, so that a frame whose page data has been cut short marks
+		// the end of the valid WAL, exactly as it does when the data is read.
+		if _, err := r.r.Seek(int64(r.pageSize)-1, io.SeekCurrent); err != nil {
+			return 0, 0, err
+		}
+		var last [1]byte
+		if _, err := io.ReadFull(r.r, last[:]); err == io.EOF || err == io.ErrUnexpectedEOF {
+			return 0, 0, io.EOF
+		} else if err != nil {
 			return 0, 0, err
 		}
 	}
